@@ -1007,7 +1007,7 @@ def mpf_mod(s, t, prec, rnd=round_fast):
         return fnan
     # Important special case: do nothing if t is larger
     if ssign == tsign and texp > sexp+sbc:
-        return s
+        return mpf_pos(s, prec, rnd)
     # Another important special case: this allows us to do e.g. x % 1.0
     # to find the fractional part of x, and it will work when x is huge.
     if tman == 1 and sexp > texp+tbc:
